@@ -51,6 +51,9 @@ func genLive(seed uint64, idx uint64, thorough bool) tlive.Scenario {
 		sc.MaxW = r.Range(1, 9)
 	}
 	fam := []string{"delays", "delays", "concurrent", "busy", "saturated", "winddown", "moves", "selfnil"}[r.Intn(8)]
+	if r.Chance(1, 16) {
+		fam = "cancelstorm"
+	}
 	sc.Family = fam
 	add := func(a tlive.Act) { sc.Acts = append(sc.Acts, a) }
 	newFut := func() int { sc.NFut++; return sc.NFut - 1 }
@@ -217,6 +220,44 @@ func genLive(seed uint64, idx uint64, thorough bool) tlive.Scenario {
 			futs, ds := batch(0, r.Range(1, 5), []int{1, 3, 5}[r.Intn(3)], 0)
 			if r.Bool() {
 				cancels(0, futs, ds)
+			}
+		}
+	case "cancelstorm":
+		// many futures, every second one cancelled by 7..31 goroutines at the same time in a
+		// shuffled order, long before anything is due: Cancels queue up on the package lock
+		// while other Cancels move futures inside the heap. Every goroutine cancels its share
+		// in a tight loop (act cancelmany: one time stamp before, one after the loop).
+		sc.NG = r.Range(6, 24)
+		n := r.Range(300, 560)
+		base := int64(r.Range(70, 130)) * 1000
+		step := int64(r.Range(20, 80))
+		for i := 0; i < n; i++ {
+			add(tlive.Act{G: 0, Op: "call", Fut: newFut(), DUs: base + int64(i)*step})
+		}
+		var victims []int
+		for i := 1; i < n; i += 2 {
+			victims = append(victims, i)
+		}
+		for i := len(victims) - 1; i > 0; i-- {
+			j := r.Intn(i + 1)
+			victims[i], victims[j] = victims[j], victims[i]
+		}
+		shares := make([][]int, sc.NG-1)
+		for k, v := range victims {
+			shares[k%(sc.NG-1)] = append(shares[k%(sc.NG-1)], v)
+		}
+		// all cancellers start together, right after the last Call
+		for g := 0; g < sc.NG; g++ {
+			add(tlive.Act{G: g, Op: "barrier"})
+		}
+		for g, sh := range shares {
+			if r.Chance(1, 4) {
+				// one by one, with a time stamp around every Cancel
+				for _, v := range sh {
+					add(tlive.Act{G: g + 1, Op: "cancel", Fut: v})
+				}
+			} else {
+				add(tlive.Act{G: g + 1, Op: "cancelmany", Futs: sh})
 			}
 		}
 	case "selfnil":
